@@ -111,3 +111,83 @@ func min(a, b int) int {
 	}
 	return b
 }
+
+func init() {
+	// dbgseq <scenario> <alphabet indexes...>: run Setup, then the given alphabet actions, then the fair suffix
+	checks["dbgseq"] = func(args []string) int {
+		sc := sched.ScenarioByName(args[0])
+		st := &mon.Stats{}
+		x := sched.NewExec(sc, sched.MonitorFactory([]string{"C01"}, st))
+		defer x.Close()
+		show := func(tag string) {
+			line := tag
+			for _, n := range x.C.Nodes {
+				cs := n.Node.VCoreState()
+				line += fmt.Sprintf(" | n%d ev=%d blk=%d busy=%v heads=%d silent=%v pool=%d", n.Idx, len(n.Has), n.Node.GetLastBlockIndex(), cs.Busy, len(cs.Heads), n.Silent, len(cs.TxPool))
+			}
+			fmt.Println(line)
+		}
+		show("after setup")
+		for _, a := range args[1:] {
+			act := sc.Alphabet[atoi(a)]
+			err := x.Step(act)
+			show(fmt.Sprintf("%-10s err=%v", act.String(), err))
+		}
+		sr := x.FairSuffix(40)
+		show(fmt.Sprintf("suffix %+v", sr))
+		return 0
+	}
+}
+
+func init() {
+	checks["dbgseq2"] = func(args []string) int {
+		sc := sched.ScenarioByName(args[0])
+		x := sched.NewExec(sc, nil)
+		defer x.Close()
+		for _, a := range args[1:] {
+			x.Step(sc.Alphabet[atoi(a)])
+		}
+		x.FairSuffix(40)
+		name := func(h string) string {
+			r := x.C.Events[h]
+			if r == nil {
+				return "?"
+			}
+			return fmt.Sprintf("%c%d", 'a'+r.CreatorIdx, r.Index)
+		}
+		for _, h := range x.C.EvOrder {
+			r := x.C.Events[h]
+			if r.CreatorIdx == 3 && r.Index >= 20 || r.FirstStep > 70 && r.Index > 0 && (x.C.Events[r.OtherParent] != nil && x.C.Events[r.OtherParent].CreatorIdx == 3) {
+				fmt.Printf("%s step=%d self=%s other=%s txs=%d\n", name(h), r.FirstStep, name(r.SelfParent), name(r.OtherParent), len(r.Txs))
+			}
+		}
+		return 0
+	}
+}
+
+func init() {
+	checks["dbgheads"] = func(args []string) int {
+		sc := sched.ScenarioByName(args[0])
+		x := sched.NewExec(sc, nil)
+		defer x.Close()
+		for _, n := range x.C.Nodes {
+			cs := n.Node.VCoreState()
+			line := fmt.Sprintf("n%d busy=%v heads:", n.Idx, cs.Busy)
+			for id, h := range cs.Heads {
+				who := -1
+				for _, m := range x.C.Nodes {
+					if m.Peer.ID() == id {
+						who = m.Idx
+					}
+				}
+				if h == "" {
+					line += fmt.Sprintf(" %d:nil", who)
+				} else {
+					line += fmt.Sprintf(" %d:%c%d", who, 'a'+x.C.Events[h].CreatorIdx, x.C.Events[h].Index)
+				}
+			}
+			fmt.Println(line)
+		}
+		return 0
+	}
+}
